@@ -72,7 +72,7 @@ int snoopy_output_fileoutput (char const * const logMessage, char const * const 
     snoopy_message_generateFromFormat(filePath, PATH_MAX, PATH_MAX, arg);
 
     // Try to open file in append mode (same semantics as fopen(path, "a"))
-    fd = open(filePath, O_WRONLY | O_CREAT | O_APPEND, S_IRUSR | S_IWUSR | S_IRGRP | S_IWGRP | S_IROTH | S_IWOTH);
+    fd = open(filePath, O_WRONLY | O_CREAT | O_APPEND | O_CLOEXEC, S_IRUSR | S_IWUSR | S_IRGRP | S_IWGRP | S_IROTH | S_IWOTH);
     if (-1 == fd) {
         return SNOOPY_OUTPUT_FAILURE;
     }
